@@ -282,6 +282,86 @@ def analyse_lookahead(name: str) -> dict:
 
 
 # ---- add_error ------------------------------------------------------------------------------------
+def _shadow_dedup(I, tree, guard, actx, ctxp, err, se) -> bool:
+    """De-duplication through a set of the collected errors' texts kept next to the list: the append is guarded by
+    ``str(error) not in context.<texts>``, and <texts> is in step with the list - built from the constructor's errors by
+    str(), given str(error) on the very path that appends error, and touched nowhere else (nor is the list)."""
+    import ast
+    from .facts import facts
+    g, pol = guard
+    sh = None
+    if g[0] == "cmp" and g[1] == "In" and g[2] == se and pol is False:
+        sh = g[3]
+    elif g[0] == "cmp" and g[1] == "NotIn" and g[2] == se and pol is True:
+        sh = g[3]
+    if sh is None or sh[0] != "attr" or sh[1] != ctxp:
+        return False
+    X = sh[2]
+    adds = [(n, c) for n, c in nf.iter_nodes(tree) if n[0] == "mutate" and n[1] == sh]
+    if len(adds) != 1 or adds[0][0][2] != "add" or adds[0][0][3] != (se,) or nf.guards_in_ctx(adds[0][1]) != nf.guards_in_ctx(actx):
+        return False
+    f = facts()
+    try:
+        cc = f.cls(f"{PQ.rsplit('.', 1)[0]}.ParserContext")
+    except Exception:
+        return False
+    if cc is None or "__init__" not in cc.methods:
+        return False
+    ctor = cc.methods["__init__"]
+    me = ctor.params()[0]
+    # the constructor: self.errors = <param E>; self.<texts> = {str(e) for e in E} | set(map(str, E)) | set() when every
+    # construction passes an empty list
+    e_param = None
+    init_ok = False
+    stores = 0
+    for n in ast.walk(ctor.node):
+        tg = None
+        if isinstance(n, ast.Assign) and len(n.targets) == 1:
+            tg, v = n.targets[0], n.value
+        elif isinstance(n, ast.AnnAssign) and n.value is not None:
+            tg, v = n.target, n.value
+        if tg is None or not (isinstance(tg, ast.Attribute) and isinstance(tg.value, ast.Name) and tg.value.id == me):
+            continue
+        if tg.attr == N.CTX_ERRORS and isinstance(v, ast.Name):
+            e_param = v.id
+    for n in ast.walk(ctor.node):
+        tg = None
+        if isinstance(n, ast.Assign) and len(n.targets) == 1:
+            tg, v = n.targets[0], n.value
+        elif isinstance(n, ast.AnnAssign) and n.value is not None:
+            tg, v = n.target, n.value
+        if tg is None or not (isinstance(tg, ast.Attribute) and isinstance(tg.value, ast.Name) and tg.value.id == me and tg.attr == X):
+            continue
+        stores += 1
+        is_str = lambda e, var: isinstance(e, ast.Call) and isinstance(e.func, ast.Name) and e.func.id == "str" and len(e.args) == 1 and not e.keywords \
+            and isinstance(e.args[0], ast.Name) and e.args[0].id == var
+        if isinstance(v, ast.SetComp) and len(v.generators) == 1 and not v.generators[0].ifs and isinstance(v.generators[0].target, ast.Name) \
+                and isinstance(v.generators[0].iter, ast.Name) and v.generators[0].iter.id == e_param and is_str(v.elt, v.generators[0].target.id):
+            init_ok = True
+        elif isinstance(v, ast.Call) and isinstance(v.func, ast.Name) and v.func.id == "set" and len(v.args) == 1 and isinstance(v.args[0], ast.Call) \
+                and isinstance(v.args[0].func, ast.Name) and v.args[0].func.id == "map" and len(v.args[0].args) == 2 \
+                and isinstance(v.args[0].args[0], ast.Name) and v.args[0].args[0].id == "str" and isinstance(v.args[0].args[1], ast.Name) and v.args[0].args[1].id == e_param:
+            init_ok = True
+    if not init_ok or stores != 1 or e_param is None:
+        return False
+    # nobody else touches the set or the list
+    own = f"{PQ}.{N.ADD_ERROR}"
+    for fi in f.all_functions():
+        if fi.module.name.startswith("scripts"):
+            continue
+        for n in ast.walk(fi.node):
+            if isinstance(n, ast.Attribute) and n.attr == X and isinstance(n.ctx, (ast.Store, ast.Del)) and fi.qualname != ctor.qualname:
+                return False
+            if isinstance(n, ast.Call) and isinstance(n.func, ast.Attribute) and n.func.attr in I.MUTATORS and isinstance(n.func.value, ast.Attribute) \
+                    and n.func.value.attr in (X, N.CTX_ERRORS) and fi.qualname != own:
+                return False
+            if isinstance(n, (ast.Subscript,)) and isinstance(n.ctx, (ast.Store, ast.Del)) and isinstance(n.value, ast.Attribute) and n.value.attr in (X, N.CTX_ERRORS):
+                return False
+            if isinstance(n, ast.AugAssign) and isinstance(n.target, ast.Attribute) and n.target.attr in (X, N.CTX_ERRORS):
+                return False
+    return True
+
+
 def analyse_add_error() -> dict:
     I = new_interp()
     fi = I.facts.func(f"{PQ}.{N.ADD_ERROR}")
@@ -322,6 +402,8 @@ def analyse_add_error() -> dict:
                 flat = [n for n, c in nf.iter_nodes(tree)]
                 ok = len(g2) == 1 and g2[0][1] is True and g2[0][0] in eqs and flat.index(loops[0][0]) < flat.index(app) \
                     and not [n for n, c in nf.iter_nodes(loops[0][0][2]) if n[0] in ("mutate", "break", "raise")]
+    if not ok and len(gs) == 1:
+        ok = _shadow_dedup(I, tree, gs[0], actx, ctxp, err, se)
     if not ok:
         out["problems"].append(("dedup", "identical messages are collected once (str(error) compared with every collected error of this parse)",
                                 [(fmt(c, I), p2) for c, p2 in gs]))
@@ -521,7 +603,10 @@ class ParseNF:
         self.matcher_param = ("param", p[2]) if len(p) > 2 else None
         self.flat = [(n, c) for n, c in nf.iter_nodes(self.tree)]
         self.events = [(n, c) for n, c in self.flat if n[0] == "ev"]
-        self.loops = [(n, c) for n, c in self.flat if n[0] == "loop" and not nf.loops_in_ctx(c)]
+        # the token loops: outermost loops in which the parser does something (reads, matches, opens or closes a rule ...);
+        # a loop that only computes a value (a comprehension in a constructor, say) is not one
+        self.loops = [(n, c) for n, c in self.flat if n[0] == "loop" and not nf.loops_in_ctx(c)
+                      and any(m[0] == "ev" for m, _c in nf.iter_nodes(n[2]))]
         self.ctx = None
         for n, c in self.flat:
             if n[0] == "alloc":
